@@ -36,6 +36,14 @@ func cmdReplay(prop, file string) int {
 			return 2
 		}
 	}
+	// the spec must be executable on this corpus/build at all
+	probe := c.Pool.RunFresh(rf.Spec)
+	for _, o := range probe.Ops {
+		if strings.HasPrefix(o.Err, "harness:") {
+			fmt.Fprintf(os.Stderr, "INFRA: replay spec cannot be executed: op %s/%s: %s\n", o.Op, o.ID, o.Err)
+			return 2
+		}
+	}
 	reproduced, detail := c.replayVerdict(&rf)
 	fmt.Printf("replay %s: class=%s scenario=%s where=%s expect=%q\n  %s\n", file, rf.Class, rf.Scenario, rf.Where, rf.Expect, detail)
 	if reproduced {
